@@ -22,7 +22,7 @@ func init() {
 			"R5: the expirable wrapper removes and re-creates exactly on the GetExpiresAt().Before(now) edge and returns the value unchanged otherwise. " +
 			"R6: from the found edge of items.Get(k) every path to the return passes items.Remove(k) and then items.Add(k, same value) - except over an edge on which Len() of the list, read behind the lookup in the same critical section, is known to be at most 1 (the found entry is the only one, hence the most recent). R7: from the success edge of the create call every path to an exit inserts the value. " +
 			"Equivalent forms are accepted: the callback invoked through a nil-safe invoker method of the callback type; entries and keys handed through local copies or the parameters of a private helper; state kept in flags or in the nil-ness of a variable (path queries carry a valuation); the eviction moved into a private helper that GetOrCreate runs under the guard; the staleness test spelled now.After(expiry) or placed in a predicate helper; the oldest key obtained as the Key of the first Next() of an iterator freshly opened over the list (what First() is), also through a private head accessor; key and pair assigned at several places (decided per path: both stem from one execution of one Next()/accessor call); key and pair read from the entry parameter of a literal that an iteration helper of the map runs on the list; the mutex, list and tables grouped in a struct the cache holds by value. " +
-			"M1-M8: the ordered map keeps its list consistent (the rules of C10), since eviction order is the list order. R8: the expiry wrapper does not apply its staleness test to the result of GetOrCreate (which may be the value this call created) followed by an unconditional Remove of the key in a separate critical section (open finding). R5 also: the clock the staleness test of the expirable wrapper uses is read before the lookup (the lookup may be the miss that creates the item). M12: the pointer surgery of the list's unlink routine (see C10.R12). R9: the in-flight table, which is what makes a miss call the create function once, is set as a whole only while the cache object is built (by the constructor or a private helper only the constructor runs) and its entries are written only by the code of GetOrCreate - a Clear or Remove that resets the table or drops entries forgets the creations that are running at that moment, and the next misser of such a key creates a second value that is returned but neither resident nor ever passed to the delete callback (the census clauses of C09.R2). R10: a call returns what it found resident or the outcome of its own call of the create function: from every wait for a creation in flight each path to a return passes a fresh lookup or the create call (a waiter never hands out the creator's outcome - a failed creation changes nothing, the waiter's call is a miss that creates), and from the not-found edge of every lookup of the requested key each path to a return passes the create call, a wait or another lookup. R11: the expiry wrapper hands the cached item out as fresh only on paths on which the comparison of its expiry with the clock was made and came out 'not before now' (the other direction of R5: no short-circuit in front of the comparison declares a class of expired items fresh).",
+			"M1-M8: the ordered map keeps its list consistent (the rules of C10), since eviction order is the list order. R8: the expiry wrapper does not apply its staleness test to the result of GetOrCreate (which may be the value this call created) followed by an unconditional Remove of the key in a separate critical section (open finding). R5 also: the clock the staleness test of the expirable wrapper uses is read before the lookup (the lookup may be the miss that creates the item). M12: the pointer surgery of the list's unlink routine (see C10.R12). R9: the in-flight table, which is what makes a miss call the create function once, is set as a whole only while the cache object is built (by the constructor or a private helper only the constructor runs) and its entries are written only by the code of GetOrCreate - a Clear or Remove that resets the table or drops entries forgets the creations that are running at that moment, and the next misser of such a key creates a second value that is returned but neither resident nor ever passed to the delete callback (the census clauses of C09.R2). R12: every exported operation other than GetOrCreate touches the recency list inside one critical section (C09.R6): a Clear that lets go of the mutex between two steps of its sweep removes what was inserted after it began. R10: a call returns what it found resident or the outcome of its own call of the create function: from every wait for a creation in flight each path to a return passes a fresh lookup or the create call (a waiter never hands out the creator's outcome - a failed creation changes nothing, the waiter's call is a miss that creates), and from the not-found edge of every lookup of the requested key each path to a return passes the create call, a wait or another lookup. R11: the expiry wrapper hands the cached item out as fresh only on paths on which the comparison of its expiry with the clock was made and came out 'not before now' (the other direction of R5: no short-circuit in front of the comparison declares a class of expired items fresh).",
 		NotDecided: "refinement of a reference LRU over all call sequences; callback accounting as a count.",
 	})
 	register(&Check{
@@ -34,7 +34,7 @@ func init() {
 			"R2: the create call is reached only by the goroutine that registered the in-flight entry; from the registration every path to an exit closes the channel and deletes the entry, in the same critical section as the insert; the in-flight table is written only by registration, by that cleanup and by the constructor. " +
 			"R3: waiting for an in-flight creation and the create call itself run with the lock released, and a waiter goes back to the lookup. " +
 			"R4: every insert on the miss path is followed, before the lock is released, by the capacity test; as a census over the package: every call of Add on the recency list - in the wrappers that share the cache's state, in private helpers and literals too - either puts back an entry a lookup of the list has found (length unchanged) or is followed by the capacity test on every path to the end of its critical section (followed to the callers of a private helper). R5: the delete callback runs under the mutex in the critical section of the removal it reports. " +
-			"Locksets see through private helpers that are only called with the mutex held and through literals run by a withLock-style wrapper; the in-flight table may map a key to the bare channel or to a record holding it (absence tested by comma-ok or, when only non-nil records are stored, by nil); the creator may close the channel it reads back from the table under the registered key (the census clauses make that the registered one); a literal run by an iteration helper of another package (which only calls it) runs under the locks held at the helper's call, minus what the literal itself may release. Q1-Q7: the sequential LRU rules of C08 (a concurrent history must be equivalent to a sequential LRU history). M1-M12: the structural rules of the ordered map the cache keeps its recency order in (C10.R1-R12): a list that loses entries evicts the wrong victim and never hands the lost values to the delete callback. R6: every exported operation of the cache other than GetOrCreate (Remove, Clear, ...) touches the recency list inside one critical section: once it gave up the mutex after a list access it does not touch the list again, neither directly nor through a helper that locks for itself (decided by composing, over all paths and through private helpers and literals, the sequence of list accesses and lock boundaries of the call) - an operation spread over two sections is not one atomic step of any sequential history. R7: a value read from the recency list is put back (the hit's move to the most-recent end) only inside the critical section that read it - no release of the mutex, or of the shared lock the lookup ran under, between the lookup and the re-insert, also across private helpers - otherwise an entry removed in the gap is resurrected without a capacity test. R8: the creator removes its in-flight entry under the very key value it registered it under (one evaluation of the key mapping, seen through local copies and helper parameters), so that the registered entry - not some other key - is what is released. R9: every insert into the recency list under a key (a call of Add that does not put back a looked-up entry - also in operations added later and in the wrappers) consults or updates the in-flight table under that key earlier in its critical section, or else every creator's insert branches on the result of Add: otherwise an insert that runs while a creation of the key is in flight makes the creator's Add fail silently and the created value is never resident and never deleted. R10: the recency-list field is assigned only while the cache is constructed, or no access to the list goes through a pointer that was read from the field in an earlier critical section (a detached list would swallow a creator's insert). R2 also, across private helpers, literals and deferred calls (a summary automaton over the events close / delete of the in-flight entry / insert / lock boundary, composed at calls and at the deferred calls of every exit): what is released in one critical section is not completed - entry dropped, value inserted - in a later one.",
+			"Locksets see through private helpers that are only called with the mutex held and through literals run by a withLock-style wrapper; the in-flight table may map a key to the bare channel or to a record holding it (absence tested by comma-ok or, when only non-nil records are stored, by nil); the creator may close the channel it reads back from the table under the registered key (the census clauses make that the registered one); a literal run by an iteration helper of another package (which only calls it) runs under the locks held at the helper's call, minus what the literal itself may release. Q1-Q7: the sequential LRU rules of C08 (a concurrent history must be equivalent to a sequential LRU history). M1-M12: the structural rules of the ordered map the cache keeps its recency order in (C10.R1-R12): a list that loses entries evicts the wrong victim and never hands the lost values to the delete callback. R6: every exported operation of the cache other than GetOrCreate (Remove, Clear, ...) touches the recency list inside one critical section: once it gave up the mutex after a list access it does not touch the list again, neither directly nor through a helper that locks for itself (decided by composing, over all paths and through private helpers and literals, the sequence of list accesses and lock boundaries of the call) - an operation spread over two sections is not one atomic step of any sequential history. R7: a value read from the recency list is put back (the hit's move to the most-recent end) only inside the critical section that read it - no release of the mutex, or of the shared lock the lookup ran under, between the lookup and the re-insert, also across private helpers - otherwise an entry removed in the gap is resurrected without a capacity test. R8: the creator removes its in-flight entry under the very key value it registered it under (one evaluation of the key mapping, seen through local copies and helper parameters), so that the registered entry - not some other key - is what is released. R11: when the cache has more than one mutex, some one of them is held from the lookup of the recency list that missed to the registration in the in-flight table (miss and registration are one atomic step). R4 also: the capacity field is assigned only at construction, or the assignment is followed in its critical section by a loop that evicts while Len() exceeds the capacity, or every overflow test of the package is the test of a loop. R9: every insert into the recency list under a key (a call of Add that does not put back a looked-up entry - also in operations added later and in the wrappers) consults or updates the in-flight table under that key earlier in its critical section, or else every creator's insert branches on the result of Add: otherwise an insert that runs while a creation of the key is in flight makes the creator's Add fail silently and the created value is never resident and never deleted. R10: the recency-list field is assigned only while the cache is constructed, or no access to the list goes through a pointer that was read from the field in an earlier critical section (a detached list would swallow a creator's insert). R2 also, across private helpers, literals and deferred calls (a summary automaton over the events close / delete of the in-flight entry / insert / lock boundary, composed at calls and at the deferred calls of every exit): what is released in one critical section is not completed - entry dropped, value inserted - in a later one.",
 		NotDecided: "linearizability of histories; created-versus-deleted balance over schedules.",
 	})
 }
@@ -306,6 +306,10 @@ func runC08(c *Ctx) {
 	c.R.Floor("C08.R10", 2)
 	c.expirableFreshOnlyNotExpiredV(resolveLRURoles(c), "C08.R11")
 	c.R.Floor("C08.R11", 1)
+	// R12 (= C09.R6): Remove, Clear and every later operation touch the recency list in one critical section - also a
+	// sequential history sees the difference when a delete callback uses the cache while the sweep has let go of the mutex
+	c.lruOpsAtomic(resolveLRURoles(c), "C08.R12")
+	c.R.Floor("C08.R12", 2)
 	// M: the ordered map under the recency list
 	mapRules(c, "C08.M")
 }
@@ -1015,6 +1019,8 @@ func (c *Ctx) expirableWrapper(r *lruRoles, rule string) {
 
 func runC09(c *Ctx) {
 	mapRules(c, "C09.M")
+	// R11 (v_lru_h.go): decided on the types, before the role "the cache mutex" is resolved (it fails on two mutexes)
+	c.lruOneMutexV("C09.R11")
 	r := resolveLRURoles(c)
 	mpath := r.mutexPath
 	lv := r.locks
@@ -1322,6 +1328,8 @@ func lruCapacityRule(c *Ctx, r *lruRoles, rule string) {
 	// the census over every insert site of the package (v_lru_census.go); it does not need the create call in
 	// GetOrCreate's own body, so it runs before that role is resolved
 	c.lruInsertCensusV(r, rule)
+	// the capacity changes only at construction, or the bound is restored by a loop (v_lru_h.go)
+	c.lruCapacityLoweredV(r, rule)
 	var createCall *ssa.Call
 	ir.Instrs(goc, func(in ssa.Instruction) {
 		if cc := fnValueCall(in, r.create); cc != nil {
